@@ -2,6 +2,7 @@ import Driver.Prg
 import Driver.Bls
 import Driver.Ecdsa
 import Driver.Hash
+import Driver.KeyGen
 
 /-! Model driver: one request per line on stdin, one canonical answer per line on stdout.
     First field: case id (echoed), second: operation. Unknown lines are answered `bad-op`. -/
@@ -27,6 +28,7 @@ def dispatch (op : String) (args : List String) : String :=
   | "e2" => Driver.Bls.e2Gen args
   | "ecdsa" => Driver.Ecdsa.run args
   | "hash" => Driver.Hash.runHash args
+  | "keygen" => Driver.KeyGen.run args
   | "kmac" => Driver.Hash.runKmac args
   | "expect" => " ".intercalate (args.takeWhile (fun a => !a.startsWith "#"))
   | _ => "bad-op"
